@@ -5,6 +5,7 @@
   harmless rewrites (more attributes, extra local computation) keep passing; the one equality
   (`prog_is`) says that the interpreted parameters are those the theorems were proved for.
 -/
+import Glb.Generated.StatusRelay
 import Glb.Proofs.Relay
 
 namespace Glb.Tie.Relay
@@ -110,5 +111,8 @@ theorem response_writer_method_set :
     ∧ storeRWMethods.length = 6
     ∧ storeRWEmbedded = []
     ∧ storeRWFields = ["Origin http.ResponseWriter", "Status int"] := by decide
+
+/-- the extractor of this area recognised the source as it is on this run (a refusal removes `ok`) -/
+theorem extractor_ok : Glb.Generated.StatusRelay.ok = () := rfl
 
 end Glb.Tie.Relay
